@@ -339,7 +339,7 @@ def cls_out_of_window(rnd):
 
 def cls_deep(rnd):
     """deeply nested task trees and long dependency chains (recursion in the transformer, the builder, the roll-up)"""
-    n = rnd.choice([30, 120, 300, 700])
+    n = rnd.choice([30, 120, 300, 700, 145, 160, 175, 190, 220])     # around the depth where the interpreter's recursion limit is reached
     L = ['project p "P" 2025-03-03 +4w {', '  timezone "Etc/UTC"', "}", 'resource r "r" {}']
     k = rnd.random()
     if k < 0.2:
